@@ -49,6 +49,44 @@ static void rec_fastdiv(size_t d, size_t n) {
   printf("T fastdiv %llu %llu %llu %llu\n", U(n), U(d), U(mi_fast_divide(n, magic, shift)), U(n / d));
 }
 
+// G records: functions translated by tools/c2gallina.py that have no F record (compared with the generated
+// Gallina function by ocaml/mode_gen.ml; the name is the C function's)
+static void rec_gen_misc(prng_t* g, int nrand) {
+  for (int i = 0; i < nrand / 8; i++) {
+    size_t a = prng_sized(g), lo = prng_sized(g), hi = prng_sized(g);
+    printf("G _mi_clamp %llu %llu %llu = %llu\n", U(a), U(lo), U(hi), U(_mi_clamp(a, lo, hi)));
+    size_t idx = prng_below(g, (size_t)1 << (i % 50)), bit = prng_below(g, MI_BITMAP_FIELD_BITS);
+    mi_bitmap_index_t bi = mi_bitmap_index_create(idx, bit);
+    printf("G mi_bitmap_index_create %llu %llu = %llu\n", U(idx), U(bit), U(bi));
+    printf("G mi_bitmap_index_create_ex %llu %llu = %llu\n", U(idx), U(bit), U(mi_bitmap_index_create_ex(idx, bit)));
+    printf("G mi_bitmap_index_create_from_bit %llu = %llu\n", U(a), U(mi_bitmap_index_create_from_bit(a)));
+    printf("G mi_bitmap_index_field %llu = %llu\n", U(a), U(mi_bitmap_index_field(a)));
+    printf("G mi_bitmap_index_bit_in_field %llu = %llu\n", U(a), U(mi_bitmap_index_bit_in_field(a)));
+    printf("G mi_bitmap_index_bit %llu = %llu\n", U(a), U(mi_bitmap_index_bit(a)));
+    size_t req = (i % 4 == 0 ? 0 : prng_below(g, (size_t)1 << (i % 46)));
+    size_t info = 0, ns = mi_segment_calculate_slices(req, &info);
+    printf("G mi_segment_calculate_slices %llu = %llu %llu\n", U(req), U(ns), U(info));
+  }
+  // arena ids (int) and arena block arithmetic; signed values are printed as their 64-bit two's complement
+  for (int i = 0; i < nrand / 8; i++) {
+    int id = (i < 300 ? i - 100 : (int)prng_next(g));
+    int req = (i % 3 == 0 ? 0 : i % 3 == 1 ? id : (int)prng_below(g, 140));
+    if (id < INT32_MAX) printf("G mi_arena_id_index %llu = %llu\n", U((long long)id), U(mi_arena_id_index(id)));
+    size_t ai = prng_below(g, MI_MAX_ARENAS);
+    printf("G mi_arena_id_create %llu = %llu\n", U(ai), U((long long)mi_arena_id_create(ai)));
+    printf("G mi_arena_id_is_suitable %llu %d %llu = %d\n", U((long long)id), i % 2, U((long long)req), mi_arena_id_is_suitable(id, i % 2, req) ? 1 : 0);
+    size_t sz = prng_sized(g);
+    printf("G mi_block_count_of_size %llu = %llu\n", U(sz), U(mi_block_count_of_size(sz)));
+    printf("G mi_arena_block_size %llu = %llu\n", U(sz), U(mi_arena_block_size(sz)));
+  }
+  printf("G _mi_arena_id_none = %llu\n", U((long long)_mi_arena_id_none()));
+  // mi_bitmap_mask_: every (count, bitidx) with count + bitidx <= 64 (its contract), count 0 and >= 64 included
+  for (size_t count = 0; count <= MI_BITMAP_FIELD_BITS + 1; count++)
+    for (size_t bitidx = 0; bitidx + count <= MI_BITMAP_FIELD_BITS || (count > MI_BITMAP_FIELD_BITS && bitidx == 0); bitidx++)
+      printf("G mi_bitmap_mask_ %llu %llu = %llu\n", U(count), U(bitidx), U(mi_bitmap_mask_(count, bitidx)));
+  for (size_t c = 0; c <= MI_SLICES_PER_SEGMENT; c++) printf("G mi_slice_bin %llu = %llu\n", U(c), U(mi_slice_bin(c)));
+}
+
 // address arithmetic on a real block
 static void rec_block(void* p, size_t req, prng_t* g, int noffs) {
   mi_segment_t* seg = _mi_ptr_segment(p);
@@ -145,6 +183,7 @@ int main(int argc, char** argv) {
       if (s != 0) { rec_mul(SIZE_MAX / s, s); rec_mul(SIZE_MAX / s + 1, s); }
     }
   }
+  { prng_t g2; prng_seed(&g2, seed ^ 0xC2600D5EEDull); rec_gen_misc(&g2, nrand); }   // own generator: the other sections keep their inputs
   // 5. fast division: every bin size and large block sizes, all interesting n
   for (size_t b = 1; b < MI_BIN_HUGE; b++) {
     size_t d = _mi_bin_size(b);
